@@ -80,6 +80,12 @@ def numeric_spellings(tier='quick'):
         out.append(lay('two_derive', 'derive(Debug), validate(less = %s), derive(TryFrom)' % hi, [], [vhi], []))
         out.append(lay('two_default', 'default = %s, validate(less = %s), derive(Debug, TryFrom, Default), default = %s' % (('1.0', hi, '2.0') if fl else ('1', hi, '2')),
                        [], [vhi], [], default='2.0' if fl else '2', derives=('Debug', 'TryFrom', 'Default')))
+        dm = lay('mixed_custom_builtin', 'validate(less = %s, with = vfn_%s, error = MyErr), derive(Debug, TryFrom)' % (hi, t), [], [vhi], ['vfn_' + t, 'MyErr'])
+        dm.expect_reject = True
+        dm.custom_validation = aux.custom('vfn', t)[0]
+        dm.custom_error = 'MyErr'
+        dm.note = 'mixed: built-in validators together with with/error (must be rejected; if accepted both the built-in rule and the custom function must be enforced)'
+        out.append(dm)
         out.append(lay('validate_then_pred', 'validate(predicate = pred_%s, less = %s), derive(Debug, TryFrom)' % (t, hi), [], [vp, vhi], [pn]))
         # closure spellings
         san_body = 'if x < 0.0 { -x } else { x }' if fl else 'if x > 50 { 50 } else { x }'
